@@ -19,6 +19,14 @@ def pagerank(a):
     """PageRank(...).fit(...). For solver='push' the answer of np.argsort inside the kernel is recorded
     (wrapped from outside; the kernel looks `np.argsort` up at call time)."""
     m = mk_matrix(a['m'])
+    # other centralities fitted first on the SAME matrix object (a user computing several scores of one graph): what they do to
+    # their argument must not reach the PageRank computed afterwards
+    for name in a.get('before') or []:
+        try:
+            {'Katz': Katz, 'HITS': HITS, 'Closeness': Closeness, 'Betweenness': Betweenness,
+             'PageRank': lambda: PageRank(damping_factor=0.5, solver='piteration')}[name]().fit(m)
+        except Exception:       # noqa  (an algorithm that refuses the graph is not the subject here)
+            pass
     pr = PageRank(damping_factor=a['damping'], solver=a['solver'], n_iter=a['n_iter'], tol=a['tol'])
     captured = []
     orig = np.argsort
